@@ -209,9 +209,9 @@ package callbacks
 //@   do lastKind = result
 //@ func preload
 //@   tags C11
-//@   loop "i < reflectValue.Len()" entry-do relSets = 0
-//@   loop "i < reflectValue.Len()" invariant one-reset-per-parent-so-far: relSets == i
-//@   loop "i < reflectValue.Len()" exit-do resetUpTo = i
-//@   loop "i < reflectResults.Len()" entry-do cleanedKind = lastKind
-//@   loop "i < reflectResults.Len()" entry-do cleanupSets = relSets
-//@   loop "i < reflectResults.Len()" invariant every-parent-of-a-slice-was-reset: (cleanedKind == 23 || cleanedKind == 17) ==> cleanupSets == resetUpTo
+//@   loop "i := 0; i < reflectValue.Len(); i++" entry-do relSets = 0
+//@   loop "i := 0; i < reflectValue.Len(); i++" invariant one-reset-per-parent-so-far: relSets == i
+//@   loop "i := 0; i < reflectValue.Len(); i++" exit-do resetUpTo = i
+//@   loop "i := 0; i < reflectResults.Len(); i++" entry-do cleanedKind = lastKind
+//@   loop "i := 0; i < reflectResults.Len(); i++" entry-do cleanupSets = relSets
+//@   loop "i := 0; i < reflectResults.Len(); i++" invariant every-parent-of-a-slice-was-reset: (cleanedKind == 23 || cleanedKind == 17) ==> cleanupSets == resetUpTo
